@@ -195,6 +195,8 @@ class FolderProjectIo(ProjectIoInterface):
                 format_name=saving_options.data_format,
                 allow_overwrite=True,
             )
+            # A filtered dataset is a copy, the original needs to know where it was saved as well
+            result.data[label].attrs["source_path"] = dataset.attrs["source_path"]
             paths.append(data_path.as_posix())
 
         return paths
